@@ -1,0 +1,23 @@
+//go:build verif
+
+// Contracts for package validation, read by the gocv verification-condition
+// generator in /verif. This file contains comments only: it adds no code
+// to any build. Syntax: see /verif/DESIGN.md section 2.2.
+
+package validation
+
+// K8sAnnOK(m): every key of m is a valid (lower-cased) Kubernetes qualified name and the total
+// size is within the limit. The check itself is the regexp code adapted from k8s in
+// internal/validation/k8s; here it is an opaque predicate over the content of the map (the body
+// below only fixes its heap footprint), introduced by the trusted contract of
+// k8s.ValidateAnnotations. What is proved is that it is consulted for every annotation map.
+//@ opaque pred K8sAnnOK(m map[string]string) = has(m, "") == has(m, "") && m[""] == m[""]
+
+//@ func ValidateSpecAnnotations(name string, any interface{}) (err error)
+//@   pure
+//@   ensures[C05] implies(any == nil, err == nil)
+//@   ensures[C05] implies(typeis(any, map[string]string), iff(err == nil, K8sAnnOK(as(any, map[string]string))))
+
+//@ func validateSpecAnnotations(name string, annotations map[string]string) (err error)
+//@   pure
+//@   ensures[C05] iff(err == nil, K8sAnnOK(annotations))
